@@ -73,6 +73,15 @@ func (i *IRCServer) cmdJoin(s *Session, reply *Replyctx, msg *irc.Message) {
 			})
 			continue
 		} else if c.modes['x'] && !s.invitedTo[ChanToLower(channelname)] {
+			// A solved captcha replaces the key, but must not lift a ban.
+			if banned(c.bans, s.ircPrefix.String(), s.Nick+"!"+s.Username+"@"+s.RemoteAddr) {
+				i.sendUser(s, reply, &irc.Message{
+					Prefix:  i.ServerPrefix,
+					Command: irc.ERR_BANNEDFROMCHAN,
+					Params:  []string{s.Nick, c.name, "Cannot join channel (+b)"},
+				})
+				continue
+			}
 			if err := i.verifyCaptcha(s, key); err != nil {
 				captchaUrl := i.generateCaptchaURL(s, fmt.Sprintf("join:%d:%s", s.LastActivity.UnixNano(), c.name))
 				i.sendUser(s, reply, &irc.Message{
